@@ -46,7 +46,7 @@ def single_batch(ctx, rid, fn, allow_after_commit=("store_tx",), group=None):
     return held and held2 and ok3
 
 
-def duplicate_lookup_complete(ctx, rid, f, call_b, call_t):
+def duplicate_lookup_complete(ctx, rid, f, call_b, call_t, all_accounts=False):
     """The look-up that detects a replayed slate must see every log entry of that slate id:
     no log-id restriction and outstanding_only == false on every production root."""
     from ..flags import FlagRoots
@@ -63,6 +63,15 @@ def duplicate_lookup_complete(ctx, rid, f, call_b, call_t):
     if not held:
         run.finding(Finding(rid, f.id, "duplicate look-up does not see every entry of the slate id (restricted by log id or to outstanding entries)", site=c.site_of(f, call_b),
                             detail="outstanding_only roots: %s" % sorted("%s %s" % (r[0], r[1]) for r in roots)))
+    if all_accounts:
+        # the party that delivers the slate also names the destination account: a replay must be recognised
+        # whichever account it names, so the look-up may not be restricted to one account
+        p4 = vf.producers(f, a[4])
+        h2 = ("agg", "core::option::Option", "None") in p4 and not any(x[0] == "agg" and x[2] == "Some" for x in p4)
+        run.instance(rid, {"fn": pp.short(f.id), "obligation": "duplicate look-up covers every account (the deliverer chooses the destination account)"}, held=h2)
+        if not h2:
+            run.finding(Finding(rid, f.id, "duplicate look-up is restricted to the destination account, which the deliverer of the slate chooses: the same slate delivered again under another account name is received a second time (second log entry, second output)", site=c.site_of(f, call_b)))
+        held = held and h2
     return held
 
 
@@ -79,7 +88,7 @@ class _EdgeCmp:
         return self._site
 
 
-def replay_guard(ctx, rid, f, ty, depth=0):
+def replay_guard(ctx, rid, f, ty, depth=0, root=None):
     """Does step function f refuse a replay - an existing log entry of type `ty` for the slate id leads to
     Err before any effect?  The test may sit in f itself or in a Result-returning helper that f calls and
     whose Ok-edge guards every effect of f.  Returns (held, info)."""
@@ -129,7 +138,7 @@ def replay_guard(ctx, rid, f, ty, depth=0):
                                             dup.append(_EdgeCmp(gd.ok, c.site_of(f, b)))
         info["duplicate_tests"] = len(dup)
     if keyed and dup:
-        duplicate_lookup_complete(ctx, rid, f, keyed[0][0], keyed[0][1])
+        duplicate_lookup_complete(ctx, rid, f, keyed[0][0], keyed[0][1], all_accounts=(rid.startswith("C03") and ty == "TxReceived" and (root or f.id).endswith("api_impl::foreign::receive_tx")))  # C07 speaks of a second delivery "to that account" only
         x = dup[0]
         same = x.true_edges if x.op == "Eq" else x.false_edges
         starts = [d for (_s, d) in same]
@@ -155,7 +164,7 @@ def replay_guard(ctx, rid, f, ty, depth=0):
             continue
         if ctx.eff.effect_blocks(w):
             continue
-        h, winfo = replay_guard(ctx, rid, w, ty, depth + 1)
+        h, winfo = replay_guard(ctx, rid, w, ty, depth + 1, root=root or f.id)
         if not (winfo["lookups_by_slate_id"] and winfo["duplicate_tests"]):
             continue
         # the helper is given this step's slate
